@@ -51,7 +51,8 @@ Qed.
 Lemma failed_append_unchanged : forall s E o Ea a s' o' e,
   repr s E o -> repr s Ea a -> append s o a = ((s', o'), Raised e) -> s' = s /\ o' = o.
 Proof.
-  intros s E o Ea a s' o' e R Ra H. pose proof (append_spec s E o Ea a R Ra) as S. rewrite H in S. exact S.
+  intros s E o Ea a s' o' e R Ra H. pose proof (append_spec s E o Ea a R Ra) as S. rewrite H in S.
+  destruct S as (A & B & _); split; assumption.
 Qed.
 
 Lemma failed_simple_ops_unchanged : forall s E o, repr s E o ->
